@@ -32,6 +32,30 @@ def scope_balance(prog, R, rule):
                 R.ob(rule + "-who-may-call", f"{inventory.ishort(k)}:{c.split('::')[-1]}:bb{0}".replace(":bb0", ""), ok, t["at"], f"{c.split('::')[-1]} called from {inventory.ishort(k)} (macro provenance {t.get('exp')}); allowed only inside with_scope! and SymbolTable::new")
 
 
+def return_type_scope(prog, R, rule):
+    """A subroutine's return type belongs to its signature: it is translated in the scope of the `def` statement
+    (where a designator such as int[n] sees the enclosing declarations), not inside the subroutine scope where the
+    parameters shadow them.  Every scalar_type_to_type call reachable from stmt_to_asg_stmt itself (directly or
+    from one of its closures) happens with an empty relative scope stack."""
+    s2s = prog.body(S2S + "stmt_to_asg_stmt")
+    if not s2s:
+        R.ob("ANCHOR", S2S + "stmt_to_asg_stmt", False)
+        return
+    _, _, sites = scope_flow(prog, s2s)
+    n, bad = 0, []
+    for (bb, c, st) in sites:
+        hit = c.endswith("::scalar_type_to_type")
+        if c.startswith("closure:"):
+            cb = prog.body(c[8:])
+            hit = cb is not None and any((cb.callee_of(t) or "").endswith("::scalar_type_to_type") for _, t in cb.calls())
+        if hit:
+            n += 1
+            if st != ():
+                bad.append((s2s.blocks[bb].term["at"], st))
+    R.ob(rule, "def return type is translated outside the subroutine scope", not bad and n >= 1, bad[0][0] if bad else s2s.at,
+         f"{n} scalar_type_to_type sites in stmt_to_asg_stmt, all at relative scope depth 0" if not bad else f"return/parameter type translated with scope stack {bad[0][1]} open: identifiers in its designator resolve against the subroutine's parameters instead of the enclosing scope")
+
+
 def run(prog, R):
     R.explanation = ("Scope discipline of the translator decided on MIR: enter/exit_scope balance of every body (forward dataflow of the scope stack), every body translation "
                      "(if/else/while/for/case/default: Local; gate/def: Subroutine) happens inside a freshly entered scope of the right kind with loop variable and parameters "
@@ -131,6 +155,7 @@ def run(prog, R):
     else:
         R.ob("ANCHOR", "switch case closure", False)
 
+    return_type_scope(prog, R, "C07.2-signature-scope")
     # ---- C07.3 declaration order
     cd = R.anchor(prog, S2S + "classical_declaration_statement_to_asg_stmt")
     if cd:
